@@ -174,6 +174,26 @@ pub enum MDiscrUnit {
 pub enum MDiscrOnly {
     Only(u32, u32) = 1000,
 }
+// serde attributes that only sometimes (or only on one side) omit a field: `skip_serializing_if` still writes the field whenever the
+// predicate is false and `skip_deserializing` always writes it, so the bound has to count them
+#[derive(serde::Serialize, serde::Deserialize, postcard_derive::MaxSize)]
+pub struct MSkipIf {
+    pub id: u8,
+    #[serde(skip_serializing_if = "Option::is_none")]
+    pub reading: Option<u32>,
+    #[serde(skip_deserializing)]
+    pub seq: u16,
+}
+#[derive(serde::Serialize, postcard_derive::MaxSize)]
+pub enum MSkipIfEnum {
+    A(#[serde(skip_serializing_if = "Option::is_none")] Option<u64>),
+    B {
+        #[serde(rename = "r")]
+        x: u32,
+    },
+}
+bound!(MSkipIf, 1 + 1 + vbits(32) + vbits(16));
+bound!(MSkipIfEnum, vlen(1) + 1 + vbits(64));
 bound!(MDiscr, vlen(2) + vbits(128) + 1);
 bound!(MDiscrUnit, vlen(1));
 bound!(MDiscrOnly, vlen(0) + 2 * vbits(32));
